@@ -844,6 +844,17 @@ rci_t _mzd_echelonize_m4ri(mzd_t *A, int const full, int k, int heuristic, doubl
 }
 
 rci_t _mzd_top_echelonize_m4ri(mzd_t *A, int k, rci_t r, rci_t c, rci_t max_r) {
+#if __M4RI_HAVE_SSE2
+  if (__M4RI_ALIGNMENT(mzd_row(A, 0), 16)) {
+    /* a window starting at an odd word: the tables below are 16-byte aligned, the rows are not, and the
+     * vectorised row combination needs both in the same phase. Work on an aligned copy. */
+    mzd_t *Abar     = mzd_copy(NULL, A);
+    rci_t const ret = _mzd_top_echelonize_m4ri(Abar, k, r, c, max_r);
+    mzd_copy(A, Abar);
+    mzd_free(Abar);
+    return ret;
+  }
+#endif
   rci_t const ncols = A->ncols;
   int kbar          = 0;
 
